@@ -22,6 +22,7 @@ type Cmd struct {
 	Flags    uint16
 	Raw      byte
 	OK       bool // the master answered the command with OK (queries)
+	Conn     int  // on which connection of the attempt the command arrived (1 = the first one accepted)
 }
 
 // Fault is a master-side fault injected into the packet stream.
@@ -53,10 +54,13 @@ type ConnRecord struct {
 	PeerClosed chan struct{} // closed when the peer closed the socket (read returned EOF/err)
 	Done       chan struct{} // closed when the master finished with the connection
 	Accepted   bool          // a connection was accepted for this record
+	NConn      int           // connections accepted for this record (a Stream call makes one)
+	doneOnce   sync.Once
 	closedAt   time.Time
 }
 
 func (c *ConnRecord) addCmd(x Cmd) { c.mu.Lock(); c.Cmds = append(c.Cmds, x); c.mu.Unlock() }
+func (c *ConnRecord) addCmdOn(nconn int, x Cmd) { x.Conn = nconn; c.addCmd(x) }
 func (c *ConnRecord) snapshot() ([]Cmd, int) {
 	c.mu.Lock()
 	defer c.mu.Unlock()
@@ -154,8 +158,10 @@ func (m *Master) acceptLoop(ln net.Listener) {
 		m.mu.Unlock()
 		rec.mu.Lock()
 		rec.Accepted = true
+		rec.NConn++
+		nc := rec.NConn
 		rec.mu.Unlock()
-		go m.serve(c, p, rec)
+		go m.serve(c, p, rec, nc)
 	}
 }
 
@@ -216,8 +222,8 @@ func errPacket(code uint16, msg string) []byte {
 
 func eofPacket() []byte { return []byte{0xfe, 0, 0, 2, 0} }
 
-func (m *Master) serve(c net.Conn, p *ServePlan, rec *ConnRecord) {
-	defer close(rec.Done)
+func (m *Master) serve(c net.Conn, p *ServePlan, rec *ConnRecord, nconn int) {
+	defer rec.doneOnce.Do(func() { close(rec.Done) })
 	pc := &pconn{c: c}
 	peerClosed := func() {
 		select {
@@ -271,13 +277,13 @@ func (m *Master) serve(c net.Conn, p *ServePlan, rec *ConnRecord) {
 		}
 		switch cmd[0] {
 		case 0x01:
-			rec.addCmd(Cmd{Kind: "quit"})
+			rec.addCmdOn(nconn, Cmd{Kind: "quit"})
 			// wait for the close
 			drain()
 			c.Close()
 			return
 		case 0x03:
-			rec.addCmd(Cmd{Kind: "query", SQL: append([]byte(nil), cmd[1:]...), OK: p.ConnFault != "set_err"})
+			rec.addCmdOn(nconn, Cmd{Kind: "query", SQL: append([]byte(nil), cmd[1:]...), OK: p.ConnFault != "set_err"})
 			if p.ConnFault == "set_err" {
 				pc.write(errPacket(1193, "Unknown system variable 'binlog_checksum'"))
 				continue
@@ -293,7 +299,7 @@ func (m *Master) serve(c net.Conn, p *ServePlan, rec *ConnRecord) {
 			}
 		case 0x12:
 			if len(cmd) < 11 {
-				rec.addCmd(Cmd{Kind: "other", Raw: cmd[0]})
+				rec.addCmdOn(nconn, Cmd{Kind: "other", Raw: cmd[0]})
 				continue
 			}
 			d := Cmd{Kind: "dump",
@@ -301,7 +307,7 @@ func (m *Master) serve(c net.Conn, p *ServePlan, rec *ConnRecord) {
 				Flags:    binary.LittleEndian.Uint16(cmd[5:7]),
 				ServerID: binary.LittleEndian.Uint32(cmd[7:11]),
 				File:     append([]byte(nil), cmd[11:]...)}
-			rec.addCmd(d)
+			rec.addCmdOn(nconn, d)
 			if p.ConnFault == "dump_close" {
 				c.Close()
 				return
@@ -315,7 +321,7 @@ func (m *Master) serve(c net.Conn, p *ServePlan, rec *ConnRecord) {
 			m.stream(c, pc, p, rec, d, drain)
 			return
 		default:
-			rec.addCmd(Cmd{Kind: "other", Raw: cmd[0]})
+			rec.addCmdOn(nconn, Cmd{Kind: "other", Raw: cmd[0]})
 			pc.write(okPacket())
 		}
 	}
